@@ -121,6 +121,11 @@ TraceNext ==
        [] Ev = "final"            -> Obs(Quiescent /\ SeqToBag(A) = SeqToBag(Chain(tail))
                                          /\ (IF LateLost = {} THEN TRUE ELSE Known("CF05a", LateLost)))
        [] Ev = "free"             -> Obs(FreeOK(Rec[l]))
+       \* a clear_with whose callback panicked (caught): the bucket was left empty and usable (a value pushed afterwards is
+       \* handed out by the next clear), the values handed out before the panic were whole blocks, and - also after the epoch
+       \* collector ran the deferred destructions - no value was destroyed twice and nothing never pushed was destroyed
+       [] Ev = "cbpanic"          -> Obs(/\ A[3] = 1 /\ A[5] = 1 /\ A[6] = 1
+                                         /\ A[4] <= A[1] /\ A[7] = 0 /\ A[8] = 0 /\ A[9] <= A[1])
        [] OTHER -> FALSE          \* livelock / stuck / panic / unknown site: not a behaviour
 
 TraceInit == Init /\ l = 1 /\ dmark = 0
